@@ -17,9 +17,10 @@ Record cfg := mkCfg {
   fix_swap_keep : bool;      (* C02: keep flags follow the contig strand *)
   fix_leftover_gap : bool;   (* C07: join gap when appending left-over contigs *)
   fix_tag_key : bool;        (* C09: tag is part of the fusion key *)
-  fix_canon_junction : bool  (* C11: mixed-strand junctions canonicalised *)
+  fix_canon_junction : bool; (* C11: mixed-strand junctions canonicalised *)
+  fix_gap_run : bool         (* C08: every gap of a run between two left-over contigs is kept *)
 }.
-Definition repaired : cfg := mkCfg true true true true.
+Definition repaired : cfg := mkCfg true true true true true.
 
 (* ------------------------------------------------------------- state *)
 Record bstate := mkB {
@@ -285,38 +286,43 @@ Definition cut_remaining_overhangs (c : cfg) (b : bstate) : res bstate :=
   Ok (mkB (b_store b') (b_added b') (b_found b') [] (b_namer b') (b_cuts b')).
 
 (* ------------------------------------ add_missing_scaffolds_from_input *)
-Fixpoint missing_rows (found : list (fkey * (frag * list rid))) (default_gap : gap)
-         (rows : list row) (prev : option row) (i : Z) (last_added : option Z) : list row :=
+(* [between] = scffld.rows[last_added_i + 1 : i], the rows passed over since the
+   last fragment that was added (only meaningful when [last_added] is set) *)
+Definition is_gap_row (r : row) : bool := match r with RG _ => true | RF _ => false end.
+
+Definition missing_sep (c : cfg) (default_gap : gap) (between : list row) : list row :=
+  if fix_gap_run c && forallb is_gap_row between then between
+  else match last between (RF (mkFrag 0 [] 0 0 0 [])) with
+       | RG g => [RG g]
+       | RF _ => [RG default_gap]
+       end.
+
+Fixpoint missing_rows (c : cfg) (found : list (fkey * (frag * list rid))) (default_gap : gap)
+         (rows : list row) (between : list row) (i : Z) (last_added : option Z) : list row :=
   match rows with
   | [] => []
   | r :: t =>
       match r with
       | RF f =>
           match aget key_eqb found (key_of f) with
-          | Some _ => missing_rows found default_gap t (Some r) (i + 1) last_added
+          | Some _ => missing_rows c found default_gap t (between ++ [r]) (i + 1) last_added
           | None =>
               let sep :=
                 match last_added with
-                | Some la =>
-                    if negb (la =? i - 1) then
-                      match prev with
-                      | Some (RG g) => [RG g]
-                      | _ => [RG default_gap]
-                      end
-                    else []
+                | Some la => if negb (la =? i - 1) then missing_sep c default_gap between else []
                 | None => []
                 end in
-              sep ++ r :: missing_rows found default_gap t (Some r) (i + 1) (Some i)
+              sep ++ r :: missing_rows c found default_gap t [] (i + 1) (Some i)
           end
-      | RG _ => missing_rows found default_gap t (Some r) (i + 1) last_added
+      | RG _ => missing_rows c found default_gap t (between ++ [r]) (i + 1) last_added
       end
   end.
 
-Definition add_missing_one (default_gap : gap) (found : list (fkey * (frag * list rid)))
+Definition add_missing_one (c : cfg) (default_gap : gap) (found : list (fkey * (frag * list rid)))
            (acc : namer * list scaffold) (isc : str * list row) : res (namer * list scaffold) :=
   let '(nm, leftovers) := acc in
   let '(name, rows) := isc in
-  match missing_rows found default_gap rows None 0 None with
+  match missing_rows c found default_gap rows [] 0 None with
   | [] => Ok acc
   | new_rows =>
       do nm' <- make_scaffold_name nm name new_rows [];
@@ -605,7 +611,7 @@ Definition remap_to_input (c : cfg) (default_gap : gap) (prefix : str) (bpt : Z 
     do b3 <- cut_remaining_overhangs c b2;
     do st <- rename_results (b_store b3) (nm_hap_scaffolds (b_namer b3));
     let b4 := with_store b3 st in
-    do nl <- foldM (add_missing_one default_gap (b_found b4)) input (b_namer b4, []);
+    do nl <- foldM (add_missing_one c default_gap (b_found b4)) input (b_namer b4, []);
     Ok (mkRun (with_namer b4 (fst nl)) (snd nl)).
 
 (* assemblies_with_scaffolds_fused *)
